@@ -25,4 +25,6 @@ def run(check):
     from ..rules_windows import rule_thread_local_access, rule_flag_published_last
     check.run_rule('C17.R1d', lambda c: rule_thread_local_access(c, 'C17.R1'))
     check.run_rule('C17.R6', lambda c: rule_flag_published_last(c, 'C17.R6'))
+    from ..rules_windows import rule_implicit_followers
+    check.run_rule('C17.R7', lambda c: rule_implicit_followers(c, 'C17.R7'))
     check.run_rule('C17.R2', lambda c: rule_shared_state_inventory(c, 'C17.R2'))
